@@ -66,7 +66,9 @@ def run(c):
     # the theorem says the model does not halt: cross-checked on the model run and on the implementation
     glob = {'configurations': 0, 'configurations_meeting_CfgOK': 0, 'configurations_not_meeting_CfgOK': [],
             'histories': 0, 'histories_meeting_all_hypotheses': 0, 'of_those_model_halted': 0,
-            'of_those_implementation_out_of_bounds': 0, 'hypothesis_false': {'HdrFits': 0, 'SameSize': 0, 'Small': 0}}
+            'of_those_implementation_out_of_bounds': 0, 'hypothesis_false': {'HdrFits': 0, 'SameSize': 0, 'Small': 0},
+            'any_sizes_theorem': {'histories_meeting_all_hypotheses': 0, 'of_those_with_buffers_of_different_sizes': 0,
+                                  'of_those_model_halted': 0, 'of_those_implementation_out_of_bounds': 0}}
     for cs in (cases + cases2):
         hs = [hrt.gen_history(rnd, cs.ir, cs.dname, cs.openargs, cs.recs, cs.hdr, cs.sizes) for _ in range(10)]
         # the same histories with every swapped-in buffer of the initial size: the theorem's platform
@@ -78,7 +80,10 @@ def run(c):
                 pl['setbufs'] = [[n, h2['buf']] for n, _b in pl['setbufs']]
             h2['plat'] = pl
             hs2.append(h2)
-        hs = hs + hs2
+        # histories of the second theorem's platform: buffers of different sizes, tracing never disabled, first call opens
+        hs3 = [rt.flushing(hrt.gen_history)(rnd, cs.ir, cs.dname, cs.openargs, cs.recs, cs.hdr, cs.sizes, toggles=False)
+               for _ in range(10)]
+        hs = hs + hs2 + hs3
         impl = hrt.run_impl(cs.exe, cs.ir, cs.dname, hs)
         mod = hrt.run_model(cs.ir, cs.dname, hs, hyps2=True)
         glob['configurations'] += 1
@@ -103,12 +108,26 @@ def run(c):
                         c.violation({'property': 'C02', 'kind': 'store outside the buffer on a history that meets every '
                                      'hypothesis of no_store_outside_the_buffer', 'config_yaml': cs.text, 'history': h,
                                      'implementation': a[-5:]}, found_input=True)
+            # the second theorem (buffers of different sizes; tracing never disabled, history starts with an opening)
+            if cfgok and all(kv.get(k) == '1' for k in ('GoodBufs', 'NoToggle', 'NeverDisabled', 'StartsOpen')):
+                b = glob['any_sizes_theorem']
+                b['histories_meeting_all_hypotheses'] += 1
+                if kv['SameSize'] != '1':
+                    b['of_those_with_buffers_of_different_sizes'] += 1
+                if kv['halted'] == '1':
+                    b['of_those_model_halted'] += 1
+                if oracle(cs, h, a):
+                    b['of_those_implementation_out_of_bounds'] += 1
+                    if not c.violations:
+                        c.violation({'property': 'C02', 'kind': 'store outside the buffer on a history that meets every '
+                                     'hypothesis of no_store_outside_the_buffer_any_sizes', 'config_yaml': cs.text,
+                                     'history': h, 'implementation': a[-5:]}, found_input=True)
         if cfgok:
             glob['configurations_meeting_CfgOK'] += 1
         elif cfgok is False and len(glob['configurations_not_meeting_CfgOK']) < 3:
             glob['configurations_not_meeting_CfgOK'].append(cs.seed)
     c.coverage['correspondence']['theorem no_store_outside_the_buffer: hypotheses on real configurations'] = glob
-    if glob['of_those_model_halted']:
+    if glob['of_those_model_halted'] or glob['any_sizes_theorem']['of_those_model_halted']:
         c.violation({'property': 'C02', 'kind': 'the model halted on a history that meets every hypothesis of '
                      'no_store_outside_the_buffer: the driver and the proved model disagree', 'obligation':
                      'no_store_outside_the_buffer'}, found_input=False)
